@@ -358,6 +358,11 @@ pub struct World {
     pub wit: Witness,
     /// do not delete the directory on drop (crash driver)
     pub keep_dir: bool,
+    /// journal file -> (keyspace, seqno) of every record written into it (C10)
+    pub journal_records: BTreeMap<String, Vec<(u8, u64)>>,
+    /// journal files that disappeared during the last operation, with the persisted seqnos at that instant
+    pub journal_deletions: Vec<String>,
+    pub track_journals: bool,
 }
 
 pub mod fjall_filter {
@@ -465,6 +470,9 @@ impl World {
             filter,
             wit: Witness::default(),
             keep_dir: false,
+            journal_records: BTreeMap::new(),
+            journal_deletions: vec![],
+            track_journals: false,
         };
         for i in 0..w.cfg.nks as u8 {
             w.create_ks(i)?;
@@ -486,6 +494,9 @@ impl World {
             filter: None,
             wit: Witness::default(),
             keep_dir: false,
+            journal_records: BTreeMap::new(),
+            journal_deletions: vec![],
+            track_journals: false,
         };
         let names: Vec<u8> = w.model.keys().copied().collect();
         for i in names {
@@ -540,6 +551,37 @@ impl World {
     /// Executes one operation against the real database and the model.
     /// `Err` = the operation itself misbehaved (unexpected error / panic is caught by the caller).
     pub fn apply(&mut self, op: &Op) -> Result<(), Violation> {
+        if !self.track_journals {
+            return self.apply_inner(op);
+        }
+        let before = journal_files(&self.dir);
+        let pre_seqno = self.db.as_ref().map(|d| d.inner().seqno()).unwrap_or(0);
+        let r = self.apply_inner(op);
+        if r.is_ok() {
+            let touched: Vec<u8> = match op {
+                Op::Ins { ks, .. } | Op::Rem { ks, .. } | Op::Clear { ks } => vec![*ks],
+                Op::Batch(items) | Op::Tx(items) => {
+                    let mut v: Vec<u8> = items.iter().map(|i| i.ks).collect();
+                    v.sort();
+                    v.dedup();
+                    v
+                }
+                _ => vec![],
+            };
+            if let Some(active) = before.last() {
+                for ks in touched {
+                    self.journal_records.entry(active.clone()).or_default().push((ks, pre_seqno));
+                }
+            }
+        }
+        let after = journal_files(&self.dir);
+        for j in before.iter().filter(|j| !after.contains(j)) {
+            self.journal_deletions.push(j.clone());
+        }
+        r
+    }
+
+    fn apply_inner(&mut self, op: &Op) -> Result<(), Violation> {
         self.steps += 1;
         let e = |what: &str, e: fjall::Error| Violation::new("op_error", format!("{what}: {e:?}"));
         match op {
